@@ -126,6 +126,24 @@ def crosscheck(chk, cases, results, n=300):
         chk.add_violation("tie:C19/extraction-crosscheck", out[-1500:], case={"file": p}, found_input=False)
 
 
+def race_probe(chk, rounds=150, k=32):
+    """Outside the sequential model: K queries in flight on a connection, their results arrive
+    while the client sends connection_terminate / leaves, under the Go race detector.  A race
+    report (or a crash) is a violation; the probe command is the replay."""
+    ok, log, exe = vlib.build_harness("c19", race=True, timeout=1500)
+    if not ok:
+        chk.add_violation("tie:C19/harness-build", "race build: " + log[-2000:], found_input=False)
+        return
+    cmd = "%s race -n %d -k %d" % (exe, rounds, k)
+    rc, out = vlib.sh(cmd, cwd=vlib.ROOT, timeout=1500, env=vlib.GOENV)
+    races = out.count("WARNING: DATA RACE")
+    chk.coverage["race_probe"] = {"cmd": cmd, "rounds": rounds, "queries_in_flight": k, "rc": rc, "race_reports": races}
+    if races or rc != 0:
+        i = out.find("WARNING: DATA RACE")
+        chk.add_violation("spec:no_data_race", "race probe rc=%s, %d race report(s): %s" % (rc, races, out[max(i, 0):][:3000]),
+                          case={"cmd": "cd /verif && " + cmd}, found_input=True)
+
+
 def run(chk, only_corpus=None):
     chk.coverage["rule"] = RULE
     chk.assumptions += [
@@ -137,7 +155,7 @@ def run(chk, only_corpus=None):
         "modelled by hand and tied by correspondence: both protocol handlers, UniversalProtocolHandler.Handle read loop, ExecutorEngine "
         "(StartOperation / StopSubscription / TerminateAllSubscriptions / the two operation goroutines), subscriptionCancellations, "
         "TimeOutChecker; steps are atomic (each runs to the quiescent point the harness waits for): interleavings INSIDE a step "
-        "(e.g. the unlocked map range in TerminateAllSubscriptions against a goroutine's Cancel) are outside the model",
+        "are outside the model; the thorough tier adds a -race probe (queries completing while the connection terminates) for them",
         "harness pieces standing in for the outside world: a fake TransportClient that mirrors websocket.Client (once disconnected "
         "nothing reaches the wire; close code read from the frame), a scripted ExecutorPool/Executor (any Executor that takes time "
         "is an instance), an InitFunc that rejects payloads containing 'reject'",
@@ -178,6 +196,7 @@ def run(chk, only_corpus=None):
             chk.coverage["distribution"]["monitor_failures_by_cause"] = by_cause
             if chk.tier == "thorough":
                 crosscheck(chk, b[0], b[1])
+                race_probe(chk)
 
     def more(st):
         for k in range(1, 4):
